@@ -1395,9 +1395,12 @@ class BaseLoss(object):
         index_out = list()
         # locate the target indexes
         index_list = self._getTargetParamIndex()
+        # parameter-major, in the order the states and parameters were
+        # supplied: column a + b*num_s of the selection is (state a, param b),
+        # which is the layout sens_to_grad and sens_to_jtj reshape to
         if isinstance(state_index, list):
-            for j in state_index:
-                for i in index_list:
+            for i in index_list:
+                for j in state_index:
                     # always ignore the first numState because they are
                     # outputs from the actual ode and not the sensitivities.
                     # Hence the +1
@@ -1407,7 +1410,7 @@ class BaseLoss(object):
             for i in index_list:
                 index_out.append(state_index + (i + 1) * self._num_state)
 
-        return np.sort(np.array(index_out)).tolist()
+        return index_out
 
     def _getTargetParamIndex(self):
         """
@@ -1439,8 +1442,8 @@ class BaseLoss(object):
         n_s = self._num_state
         n_p = self._num_param
         if isinstance(state_index, list):
-            for j in state_index:
-                for i in index_list:
+            for i in index_list:
+                for j in state_index:
                     # always ignore the first numState because they are outputs
                     # from the actual ode and not the sensitivities
                     index_out.append(j + (i + 1 + n_p)*n_s)
@@ -1449,7 +1452,7 @@ class BaseLoss(object):
             for i in index_list:
                 index_out.append(state_index + (i + 1 + n_p)*n_s)
 
-        return np.sort(np.array(index_out)).tolist()
+        return index_out
 
     def _getTargetStateIndex(self):
         """
